@@ -13,6 +13,7 @@ from ..ref import rules
 ID = "C05"
 TITLE = "A definition is accepted if and only if it obeys the static rules of DSDL"
 RULE = (
+    "(Directive operands include every falsy-looking value: false, 0, 0/1, the empty string.  Names include non-ASCII look-alikes - the Kelvin sign, full-width letters, Arabic-Indic digits - and, for the names that come from the file system, blanks and line breaks around the name.  Root namespaces include case variants of the two standard ones, which are vendor namespaces.)  "
     "Cases are (valid skeleton, 0..3 edits): the skeleton is a message or service, structure or union, optionally deprecated, with "
     "fields of primitive / array / dependency types (dependencies incl. a deprecated one live in the same namespace), paddings, a "
     "constant, @sealed or @extent; each edit targets one rule with its boundary values: retype an attribute (widths 1/2/64/65, float "
